@@ -48,7 +48,12 @@ ASSUMPTIONS = [
     "hand-built with the public API and attached to nothing (Function('__init__'), Function, Attribute, Class, a Class whose __init__ is an "
     "alias to a missing target, a method of a parent-less class, a function in a Module without modules collection), as the repository's own "
     "docstring tests build them",
-    "the docstring under test is created with Docstring(text, lineno=.., endlineno=.., parent=p) and is not attached as p.docstring",
+    "the docstring under test is created with Docstring(text, lineno=.., endlineno=.., parent=p) and is not attached as p.docstring; four entry "
+    "points are alternated: parse('style', **opts), parse(Parser.style, **opts), the cached `parsed` property, and parse() without arguments on a "
+    "docstring configured with parser/parser_options. docstring-unmodified compares the set of instance attributes too (a `parsed` cache entry is "
+    "accepted only when the `parsed` property itself was read). After the argument-less parse() a history is played: the caller empties the list "
+    "it received, docstring.value is replaced by a prose text, parse() must return one text section with the new value (the property quantifies "
+    "over every text; a result that depends on an earlier parse is not a function of the text)",
     "well-formedness is what the section classes in _griffe/docstrings/models.py declare (annotation/value may be str, Expr or None)",
     "prose clause: 'no section syntax' = no line starting with ':', no dash-only line, and every title-like line (`identifier:` + end of line or "
     "blank; known keywords included) has a missing, blank or un-indented line directly below it - the docs define a Google section as a title "
@@ -193,8 +198,13 @@ def _alone_main(path: str) -> int:
 # ----------------------------------------------------------------------------------------------- the parse and its oracle
 def _route(style: str, opts: dict) -> int:
     """Which public entry point is used for this (style, options) pair (stable, so that narrowed replays take the same one):
-    0 = Docstring.parse("style", **opts); 1 = Docstring.parse(Parser.style, **opts); 2 = Docstring(parser=, parser_options=).parsed"""
-    return (len(style) + sum(1 << i for i, v in enumerate(opts.values()) if v)) % 3
+    0 = Docstring.parse("style", **opts); 1 = Docstring.parse(Parser.style, **opts); 2 = Docstring(parser=, parser_options=).parsed;
+    3 = Docstring(parser=, parser_options=).parse() with no argument (what the loader configures), followed by a small history:
+        the caller empties the list it got, the docstring's value is replaced by a prose text, parse() is called again"""
+    return (len(style) + sum(1 << i for i, v in enumerate(opts.values()) if v)) % 4
+
+
+SECOND_TEXT = "Second text without any section syntax."
 
 
 def _parse(text: str, parent, style: str, opts: dict):
@@ -202,18 +212,37 @@ def _parse(text: str, parent, style: str, opts: dict):
 
     nlines = text.count("\n") + 1
     route = _route(style, opts)
-    if route == 2:
+    if route >= 2:
         doc = griffe.Docstring(text, lineno=3, endlineno=3 + nlines - 1, parent=parent, parser=style, parser_options=dict(opts))
     else:
         doc = griffe.Docstring(text, lineno=3, endlineno=3 + nlines - 1, parent=parent)
-    before = (doc.value, doc.lineno, doc.endlineno, doc.parser, dict(doc.parser_options))
+    before = _snapshot(doc, route)
+    second = None
     if route == 0:
         result = doc.parse(style, **opts)
     elif route == 1:
         result = doc.parse(griffe.Parser(style), **opts)
-    else:
+    elif route == 2:
         result = doc.parsed
-    return doc, before, result
+    else:
+        got = doc.parse()
+        result = list(got) if isinstance(got, list) else got
+        if isinstance(got, list):
+            del got[:]  # the caller edits the list it was given
+        original = doc.value
+        doc.value = SECOND_TEXT
+        try:
+            second = doc.parse()
+        finally:
+            doc.value = original
+    return doc, before, result, second
+
+
+def _snapshot(doc, route: int):
+    """Everything the docstring object holds: its attribute names (the `parsed` cache entry is legitimate only when the
+    `parsed` property itself was used) and the values of the documented fields."""
+    names = tuple(sorted(k for k in vars(doc) if not (route == 2 and k == "parsed")))
+    return (names, doc.value, doc.lineno, doc.endlineno, doc.parser, dict(doc.parser_options))
 
 
 _ELEMENT_CLASS = {
@@ -370,7 +399,7 @@ def check_case(case) -> list[Fail]:
     for style, opts in combos:
         parses += 1
         try:
-            doc, before, result = _guarded(lambda: call("total", _parse, text, parent, style, opts, what=where(style, opts)), PARSE_CPU_S)  # noqa: B023
+            doc, before, result, second = _guarded(lambda: call("total", _parse, text, parent, style, opts, what=where(style, opts)), PARSE_CPU_S)  # noqa: B023
         except GriffeRaised as gr:
             f = gr.fail
             add(Fail(f.clause, f"{style}:{f.kind}", f.message, {"style": style, "opts": opts}))
@@ -391,9 +420,17 @@ def check_case(case) -> list[Fail]:
                 STATS["inconclusive_timeouts"] += 1
             continue
         # docstring unmodified
-        after = (doc.value, doc.lineno, doc.endlineno, doc.parser, dict(doc.parser_options))
+        after = _snapshot(doc, _route(style, opts))
         if after != before or doc.parent is not parent:
-            add(Fail("docstring-unmodified", f"{style}:changed", f"{where(style, opts)}: docstring fields changed from {before!r} to {after!r}", {"style": style, "opts": opts}))
+            what = "attributes" if after[0] != before[0] else "changed"
+            add(Fail("docstring-unmodified", f"{style}:{what}", f"{where(style, opts)}: docstring attributes/fields changed from {before!r} to {after!r}", {"style": style, "opts": opts}))
+        # history (entry point 3 only): after the caller emptied its list and the value became a prose text, parse() describes the new text
+        if second is not None and not (opts.get("ignore_init_summary") and facts["is_init"]):
+            ks2 = [getattr(getattr(s, "kind", None), "value", "?") for s in second] if isinstance(second, list) else None
+            if ks2 != ["text"] or second[0].value != SECOND_TEXT:
+                got2 = [(k, getattr(s, "value", None) if k == "text" else "...") for k, s in zip(ks2 or [], second or [])]
+                add(Fail("prose", f"{style}:after-value-change", f"Docstring({text!r}, parent=<{tid}>, parser={style!r}, parser_options={opts}): parse(); the caller empties the "
+                         f"returned list; docstring.value = {SECOND_TEXT!r}; parse() returned {got2!r} instead of one text section holding the new value", {"style": style, "opts": opts}))  # fmt: skip
         # well-formed
         for kind, msg in malformed(result):
             add(Fail("well-formed", f"{style}:{kind}", f"{where(style, opts)}: {msg}", {"style": style, "opts": opts}))
